@@ -260,7 +260,7 @@ class Walker:
             self.vars[(s.d.uid, self.chain)] = self.value(s.expr, s.scope)
         elif k == "setpc":
             seg = self.seg()
-            seg.pc = seg.tpc() + s.delta
+            seg.pc = seg.pc + s.delta       # `* = * + n`: n bytes further, where the bytes are stored and where they run
         elif k == "testraw":
             pass        # a test is only assembled by `mos test`
         elif k == "align":
